@@ -7,7 +7,7 @@
    whose depth is within the limit) can always be met.  Missing for the full property: a
    theorem that the chainer finds such a proof; that part is carried by the per-run check on
    the implementation's own output. *)
-From IL Require Import Model.Value Model.ProvDatalog Proofs.ProvDatalog Proofs.ProvLevels.
+From IL Require Import Model.Value Model.ProvDatalog Proofs.ProvDatalog Proofs.ProvLevels Model.ProvWhyNot Model.ProvChain.
 Open Scope N_scope.
 
 Theorem C22_depth_has_complete_proof_partial :
@@ -36,6 +36,46 @@ Theorem C22_depth_is_least_proof_height_partial :
       exists d, depth_of P edb M fuel r t = Some d /\ (d <= height tr - 1)%nat.
 Proof. exact proof_height_bounds_depth. Qed.
 
+
+(* ---- the implementation side, on the model of the chainer (Model/ProvChain.v, proved sound
+   in Props/C21.v, compared with build_proof_tree on every library-path case).
+   The full property would read
+     forall cx M d r t k, c_der cx = Some d -> (d is the model, one entry per derived relation) ->
+       depth_of (c_prog cx) (c_base cx) M fuel r t = Some k -> (S k <= c_max_depth cx)%nat ->
+       exists tr, build_proof_tree cx r t = Some tr /\ explained tr = true.
+   It is FALSE for the faithful model, in two ways (both reproduced on the real code and
+   listed as known findings, classes 1 and 3 of Checks/C22.v): *)
+Definition v64 (z : Z) : value := VI64 z.
+
+(* (1) a comparison before the atom that binds its variable: the clause is skipped *)
+Definition cmpfirst_P : program :=
+  [mkClause (mkAtom 1 [TVar 0]) [LCmp (TVar 0) CLt (TVar 1); LPos (mkAtom 0 [TVar 0; TVar 1])]].
+Definition cmpfirst_base : db := [(0, [[v64 1; v64 2]; [v64 2; v64 1]; [v64 3; v64 3]])].
+Theorem C22_refuted_comparison_first :
+  let M := perfect 5 cmpfirst_P cmpfirst_base (rel_seq 2) in
+  let cx := mkCtx cmpfirst_P cmpfirst_base (Some [(1, rel_tuples M 1)]) 50 5 in
+  depth_of cmpfirst_P cmpfirst_base M 10 1 [v64 1] = Some 1%nat /\
+  forallb bound_before_use cmpfirst_P = false /\
+  exists tr, build_proof_tree cx 1 [v64 1] = Some tr /\ explained tr = false.
+Proof. cbn zeta. split; [vm_compute; reflexivity|]. split; [vm_compute; reflexivity|]. eexists. split; vm_compute; reflexivity. Qed.
+
+(* (2) recursion over cyclic data, every clause bound_before_use: r3(0,2) has depth 2 through
+   r2(0,1), r3(1,2), but the chainer follows r2(0,2), fails on r3(2,2) only because its
+   ancestors are on the visited stack, and keeps the Derived-source fallback leaf *)
+Definition cyc_P : program :=
+  [mkClause (mkAtom 3 [TVar 0; TVar 1]) [LPos (mkAtom 1 [TVar 0; TVar 1])];
+   mkClause (mkAtom 3 [TVar 0; TVar 1]) [LPos (mkAtom 2 [TVar 0; TVar 2]); LPos (mkAtom 3 [TVar 2; TVar 1])]].
+Definition cyc_base : db :=
+  [(1, [[v64 2; v64 1]; [v64 1; v64 1]; [v64 2; v64 3]; [v64 1; v64 2]; [v64 0; v64 3]; [v64 1; v64 3]]);
+   (2, [[v64 0; v64 2]; [v64 0; v64 3]; [v64 3; v64 3]; [v64 2; v64 0]; [v64 0; v64 1]; [v64 2; v64 2]])].
+Theorem C22_refuted_cycle_cut :
+  let M := perfect 20 cyc_P cyc_base (rel_seq 4) in
+  let cx := mkCtx cyc_P cyc_base (Some [(3, rel_tuples M 3)]) 50 5 in
+  depth_of cyc_P cyc_base M 20 3 [v64 0; v64 2] = Some 2%nat /\
+  forallb bound_before_use cyc_P = true /\
+  exists tr, build_proof_tree cx 3 [v64 0; v64 2] = Some tr /\ explained tr = false.
+Proof. cbn zeta. split; [vm_compute; reflexivity|]. split; [vm_compute; reflexivity|]. eexists. split; vm_compute; reflexivity. Qed.
+
 (* non-vacuity: transitive closure over 0->1->2; r1(0,2) has depth 2 *)
 Example C22_nonvacuous :
   let P := [mkClause (mkAtom 1 [TVar 0; TVar 1]) [LPos (mkAtom 0 [TVar 0; TVar 1])];
@@ -48,3 +88,5 @@ Proof. vm_compute. split; reflexivity. Qed.
 Print Assumptions C22_depth_has_complete_proof_partial.
 Print Assumptions C22_level_has_complete_proof_partial.
 Print Assumptions C22_depth_is_least_proof_height_partial.
+Print Assumptions C22_refuted_comparison_first.
+Print Assumptions C22_refuted_cycle_cut.
